@@ -117,6 +117,12 @@ C01(t) ==
      /\ r.short \/ Chk(r.unique = t.req.h.unique, "C01|" \o o \o "|unique", <<r.unique, t.req.h.unique>>)
      /\ r.short \/ Chk(r.error = 0 \/ (r.error < 0 /\ r.error > -4096), "C01|" \o o \o "|error-not-negated-errno", r.error)
 
+\* C03 on class transactions: a negative entry (nodeid 0) reaches a pre-7.4 client as ENOENT, any later client as an entry
+NegClass(t) ==
+  IF ~(t.x.cls.fsres = "neg" /\ Len(NonRemap(t)) = 1 /\ t.out.nmsgs = 1 /\ ~t.reply.short) THEN TRUE
+  ELSE IF t.x.cls.sess = "pre74" THEN Chk(t.reply.error = 0 - 2, "C03|LOOKUP|negative-entry-before-7.4", t.reply.error)
+  ELSE Chk(t.reply.error = 0, "C03|LOOKUP|negative-entry-refused", t.reply.error)
+
 (* ---------------- C17: dirty pages of whole requests (virtio-fs) ---------------- *)
 P == 4096
 RECURSIVE PagesOf(_)
@@ -136,7 +142,8 @@ Hooks(t) == LET h == t.x.hooks IN
   IF h.collect = h.release /\ h.collect <= 1 /\ h.init_params <= h.collect THEN TRUE
   ELSE PrintT(<<"EXTRA", "hook-protocol|collect-release-unbalanced", l, h>>)
 Drift(t) == LET p == t.x.pred IN
-  IF p.nreply = t.out.nmsgs /\ p.ret = t.out.retc /\ p.fscalls = Len(NonRemap(t)) /\ p.hooks = t.x.hooks.collect THEN TRUE
+  IF p.nreply = t.out.nmsgs /\ p.ret = t.out.retc /\ p.fscalls = Len(NonRemap(t)) /\ p.hooks = t.x.hooks.collect
+     /\ (t.out.nmsgs # 1 \/ t.reply.short \/ p.rkind = (IF t.reply.error = 0 THEN "ok" ELSE "err")) THEN TRUE
   ELSE PrintT(<<"DRIFT", l, t.x.cls, p, t.out.ret, t.out.nmsgs>>)
 
 (* ---------------- C03: notification messages ---------------- *)
@@ -163,7 +170,7 @@ Step ==
   /\ l <= Len(Rec)
   /\ LET t == Rec[l] IN
      TRUE = (CASE t.e = "Tx" /\ t.gen = "wf" -> (C01(t) /\ C02(t) /\ C03(t) /\ C17(t))
-               [] t.e = "Tx" /\ t.gen = "class" -> (C01(t) /\ C17(t) /\ Drift(t) /\ Hooks(t))
+               [] t.e = "Tx" /\ t.gen = "class" -> (C01(t) /\ C17(t) /\ NegClass(t) /\ Drift(t) /\ Hooks(t))
                [] t.e = "Tx" -> (C01(t) /\ C17(t) /\ Hooks(t))
                [] t.e = "Notify" -> Notify(t)
                [] OTHER -> TRUE)
